@@ -39,6 +39,12 @@ type fwCase struct {
 	Faults      []fed.WireFault        `json:"faults,omitempty"`
 	FollowUp    bool                   `json:"follow_up,omitempty"`    // afterwards: the same request, fault-free, same gateway
 	FreshFollow bool                   `json:"fresh_follow,omitempty"` // the follow-up goes to a NEW gateway (baseline for FollowUp)
+	Count       *fwCount               `json:"count,omitempty"`        // no gateway: ParallelExecutor.Execute over a mock Queryer
+}
+
+type fwCount struct {
+	N int `json:"n"`
+	K int `json:"k"`
 }
 
 type fwResult struct {
@@ -53,6 +59,7 @@ type fwResult struct {
 	FollowPanic  string              `json:"follow_panic,omitempty"`
 	FollowHang   bool                `json:"follow_hang,omitempty"`
 	FollowCalls  int                 `json:"follow_calls,omitempty"`
+	Unit         *unitObs            `json:"unit,omitempty"`
 }
 
 func fwGenOptions(abstract bool) fed.GenOptions {
@@ -110,6 +117,11 @@ func fwServe(do func() *fed.Response) fwServed {
 }
 
 func fwRun(c fwCase, cache map[string]*fed.Fed) (res fwResult) {
+	if c.Count != nil {
+		o := c09RunCount(c.Count.N, c.Count.K)
+		res.Unit = &o
+		return
+	}
 	key := fmt.Sprintf("%d/%v/%s", c.FedSeed, c.Abstract, c.Custom)
 	f, ok := cache[key]
 	if !ok {
